@@ -70,6 +70,19 @@ func c08Headers(v c08Hdrs, cfg c08Cfg, ws string) [][2]string {
 		if name == "" || v[i] == 0 {
 			continue
 		}
+		if h == "X-Forwarded-For" && v[i] >= 1 && v[i] <= 3 {
+			// forged chains whose text ends in a peer address used by the layers (127.0.0.1, ::1, 10.9.8.7)
+			// without their last element being that address
+			switch v[i] {
+			case 1:
+				out = append(out, [2]string{name, "7.7.7.7, 1127.0.0.1"})
+			case 2:
+				out = append(out, [2]string{name, "7.7.7.7"}, [2]string{name, "9.9.9.9, 2001:db8:0:1::1"})
+			case 3:
+				out = append(out, [2]string{strings.ToLower(name), "7.7.7.7, 110.9.8.7"})
+			}
+			continue
+		}
 		switch v[i] {
 		case 1:
 			out = append(out, [2]string{name, c08Forged[h]})
